@@ -23,8 +23,8 @@ import (
 //	          continuation of A (same length or longer with the same move at A's last index, transposed
 //	          orders, unrelated, shorter, continuation), optionally ucinewgame / position fen in between.
 func init() {
-	hx.Register(&hx.Stream{Name: "c10two", Gen: genC10Two, Run: runC10Two})
-	hx.Register(&hx.Stream{Name: "c10reuse", Gen: genC10Reuse, Run: runC10Reuse})
+	hx.Register(&hx.Stream{Name: "c10two", Gen: genC10Two, Run: runC10Two, Shrink: shrinkC10Two, Describe: describeC10Two})
+	hx.Register(&hx.Stream{Name: "c10reuse", Gen: genC10Reuse, Run: runC10Reuse, Shrink: shrinkC10Reuse, Describe: describeC10Reuse})
 }
 
 func c10Obs3(out *hx.Nums, b *board.Board) {
